@@ -130,6 +130,13 @@ def encoding(ctx, o, ps: PassShape):
             o.refute(f, r, r, "search result mixes capacities / ledger sums of different days or resources")
             continue
         d = cap0[1]['d']
+        if resv0[1]['kind'] == 'sel-other':
+            why = selector_defect(resv0[1].get('as_ifexp', resv0[0]), S['balance'])
+            if why:
+                o.refute(f, r, resv0[0], "the share booked before the task: " + why)
+            else:
+                o.undecided(f, r, resv0[0], "the ledger sum of the date share is chosen by a condition the rule cannot relate to balance_resources")
+            continue
         if resv0[1]['kind'] != 'sel':
             o.refute(f, r, resv0[0], f"the share booked before the task is computed with selector `{resv0[1]['kind']}`")
             continue
@@ -196,6 +203,13 @@ def encoding(ctx, o, ps: PassShape):
             o.refute(fill, r, r, f"fill result `{src(v)[:100]}` does not contain exactly one ledger sum")
             continue
         resv = resvs[0]
+        if resv[1]['kind'] == 'sel-other':
+            why = selector_defect(resv[1].get('as_ifexp', resv[0]), S['balance'])
+            if why:
+                o.refute(fill, r, resv[0], "the share of the last/first work day: " + why)
+            else:
+                o.undecided(fill, r, resv[0], "the ledger sum of the date share is chosen by a condition the rule cannot relate to balance_resources")
+            continue
         if resv[1]['kind'] != 'sel':
             o.refute(fill, r, resv[0], f"the share of the last/first work day is computed with selector `{resv[1]['kind']}` "
                                        f"(expected: all tasks when balancing, own task otherwise)")
@@ -295,6 +309,52 @@ def _original(f, sub):
 
 
 # --------------------------------------------------------------------------------------------------------------------
+def _is_balance(t, balance_attr):
+    """`self.<balance>` and its equivalent spellings (`is True`, `== True`, `bool(..)`, `is not False`)"""
+    for pat in ("$b is True", "$b == True", "bool($b)", "$b is not False", "$b != False"):
+        m = match(pat, t)
+        if m:
+            t = m['b']
+            break
+    return isinstance(t, ast.Attribute) and t.attr == balance_attr
+
+
+def selector_shape(ifexp, balance_attr):
+    """how the test of a ledger-selector conditional `reserved(r, d) if <test> else reserved(r, d, task)` relates to the
+    balancing flag.  Returns (shape, extra, all_when_true): shape in 'balance' | 'narrowed' (balance and X) | 'widened'
+    (balance or X) | None; `extra` the other operands; all_when_true: the true branch is the all-tasks query"""
+    if not isinstance(ifexp, ast.IfExp):
+        return None, [], None
+    a, b = sched._resv_call(ifexp.body), sched._resv_call(ifexp.orelse)
+    if not a or not b or {a['kind'], b['kind']} != {'all', 'task'}:
+        return None, [], None
+    t, neg = ifexp.test, False
+    while isinstance(t, ast.UnaryOp) and isinstance(t.op, ast.Not):
+        t, neg = t.operand, not neg
+    all_when_true = (a['kind'] == 'all') != neg
+    if _is_balance(t, balance_attr):
+        return 'balance', [], all_when_true
+    if isinstance(t, ast.BoolOp) and any(_is_balance(v, balance_attr) for v in t.values):
+        extra = [v for v in t.values if not _is_balance(v, balance_attr)]
+        return ('narrowed' if isinstance(t.op, ast.And) else 'widened'), extra, all_when_true
+    return None, [], None
+
+
+def selector_defect(ifexp, balance_attr):
+    """message naming what is wrong with a selector conditional that is not the plain balancing selector, or None"""
+    shape, extra, all_when_true = selector_shape(ifexp, balance_attr)
+    xs = ' and '.join(f"`{src(x)[:50]}`" for x in extra)
+    if shape == 'narrowed' and all_when_true:
+        return (f"the all-tasks ledger sum is used only when balancing is on AND {xs}: with balancing on and that condition false, "
+                f"bookings of other tasks on the same resource and day are ignored (the day is over-booked, dates no longer encode the booked share)")
+    if shape == 'widened' and all_when_true:
+        return (f"the all-tasks ledger sum is also used when {xs} although balancing is off: other tasks' bookings influence a task "
+                f"that must be scheduled independently")
+    if shape == 'narrowed' and not all_when_true:
+        return f"the ledger selector is inverted and additionally depends on {xs}"
+    return None
+
+
 def selectors(ctx, o, S):
     """every ledger query in the scheduler's own functions uses the balancing selector"""
     prog = ctx.prog
@@ -310,6 +370,12 @@ def selectors(ctx, o, S):
                         done.add(id(x))
                     if pr['kind'] == 'sel':
                         o.site(f, n, src(n)[:80])
+                    elif pr['kind'] == 'sel-other':
+                        why = selector_defect(n, S['balance'])
+                        if why:
+                            o.refute(f, n, n, "ledger query: " + why)
+                        else:
+                            o.undecided(f, n, n, "ledger query chosen by a condition the rule cannot relate to balance_resources")
                     else:
                         o.refute(f, n, n, f"ledger query with selector `{pr['kind']}`")
         for c in calls:
@@ -324,6 +390,16 @@ def selectors(ctx, o, S):
                     bal = q2
             if pr is None:
                 o.undecided(f, c, c, "unrecognised ledger query")
+            elif pr['kind'] == 'sel':
+                o.site(f, c, src(c)[:80])
+            elif pr['kind'] == 'sel-other':
+                why = selector_defect(pr.get('as_ifexp', c), S['balance'])
+                if why:
+                    o.refute(f, c, c, "ledger query: " + why)
+                else:
+                    o.undecided(f, c, c, "ledger query chosen by a condition the rule cannot relate to balance_resources")
+            elif pr['kind'] == 'sel-inverted':
+                o.refute(f, c, c, "ledger query with selector `sel-inverted`")
             elif bal is not None and pr['kind'] == ('all' if bal else 'task'):
                 o.site(f, c, f"{src(c)[:60]} under balance_resources == {bal}")
             elif bal is not None:
@@ -350,9 +426,20 @@ def conservation(ctx, o, S):
     if loop is None:
         o.undecided(fill, c, c, "reservation is not inside a while loop")
         return
-    left_p = fill.params[5]
+    param_p = left_p = fill.params[5]
     st = sched.sign_test(loop.test)
-    if not (st and st[1] == '>' and isinstance(st[0], ast.Name) and st[0].id == left_p):
+    if st and isinstance(st[0], ast.Name) and st[0].id != left_p:
+        # the remaining work may live in a local copy of the parameter (`left = left_hours` before the loop, e.g. after a
+        # helper that owns the loop was spliced in): follow it when that copy is its only plain definition
+        plain = [d for d in fl.defs_of(st[0].id) if d.kind != 'aug']
+        if len(plain) == 1 and plain[0].kind == 'assign' and isinstance(plain[0].value, ast.Name) and plain[0].value.id == left_p \
+                and plain[0].node is not None and cfg.dominates(plain[0].node, cfg.node_of(loop)) \
+                and not [d for d in fl.defs_of(left_p) if d.kind != 'param']:
+            left_p = st[0].id
+    if not (st and isinstance(st[0], ast.Name) and st[0].id == left_p) or st[1] not in ('>', '>=', '<', '<='):
+        o.undecided(fill, loop, loop.test, f"fill loop guard is `{src(loop.test)}`: not a sign test of the remaining work `{left_p}`")
+        return
+    if st[1] != '>':
         o.refute(fill, loop, loop.test, f"fill loop guard is `{src(loop.test)}`; expected `{left_p} > 0`")
         return
     # nested loops around the reservation inside the while?
@@ -360,10 +447,26 @@ def conservation(ctx, o, S):
     if inner is not None and any(x is inner for s in loop.body for x in ast.walk(s)):
         o.refute(fill, inner, inner, "the reservation is inside a nested loop: more than one booking per day")
         return
-    defs = [d for d in fl.defs_of(left_p) if d.kind != 'param']
-    if len(defs) != 1 or defs[0].kind != 'aug' or not isinstance(defs[0].stmt.op, ast.Sub) or defs[0].stmt.value is not c:
+    defs = [d for d in fl.defs_of(left_p) if d.kind != 'param' and not (left_p != param_p and d.kind == 'assign')]
+
+    def is_booked(d):
+        """`left -= <ledger>.reserve(..)`, `left -= booked` with booked = <that call>, or `left = left - <either>`"""
+        if d.kind == 'aug' and isinstance(d.stmt.op, ast.Sub):
+            v = d.stmt.value
+        elif d.kind == 'assign' and isinstance(d.value, ast.BinOp) and isinstance(d.value.op, ast.Sub) and \
+                isinstance(d.value.left, ast.Name) and d.value.left.id == left_p:
+            v = d.value.right
+        else:
+            return False
+        if v is c:
+            return True
+        if isinstance(v, ast.Name) and d.node is not None:
+            u = fl.unique_def(v.id, d.node)
+            return u is not None and u.kind == 'assign' and u.value is c
+        return False
+    if len(defs) != 1 or not is_booked(defs[0]):
         for d in defs:
-            if not (d.kind == 'aug' and isinstance(d.stmt.op, ast.Sub) and d.stmt.value is c):
+            if not is_booked(d):
                 o.refute(fill, d.stmt, d.stmt, f"the remaining work is changed by `{src(d.stmt)}`; the only allowed update is "
                                               f"`{left_p} -= <ledger>.reserve(...)` (what was booked is what is subtracted)")
         if not defs:
@@ -377,17 +480,32 @@ def conservation(ctx, o, S):
         return
     # day steps per iteration
     dvar = c.args[1]
-    steps = [d for d in fl.defs_of(attr_or_name(dvar)) if d.kind == 'aug' and d.node is not None and
+    dname = attr_or_name(dvar)
+
+    def is_step(d):
+        return d.kind == 'aug' or (d.kind == 'assign' and isinstance(d.value, ast.BinOp) and isinstance(d.value.op, (ast.Add, ast.Sub))
+                                   and attr_or_name(d.value.left) == dname)
+    steps = [d for d in fl.defs_of(dname) if is_step(d) and d.node is not None and
              any(x is d.stmt for s in loop.body for x in ast.walk(s))]
+    other_defs = [d for d in fl.defs_of(dname) if not is_step(d) and d.node is not None and
+                  any(x is d.stmt for s in loop.body for x in ast.walk(s))]
+    if other_defs:
+        o.undecided(fill, other_defs[0].stmt, other_defs[0].stmt, f"the day variable `{dname}` is redefined inside the fill loop in a form the rule does not follow")
+        return
     hdr_conds = {id(t) for t, _ in cfg.conditions(cfg.node_of(loop))}
     uncond = [d for d in steps if not [t for t in cfg.conditions(d.node) if t[0] is not loop.test and id(t[0]) not in hdr_conds]]
     if len(steps) != 1 or len(uncond) != 1:
         o.refute(fill, loop, attr_or_name(dvar), f"the day variable is stepped {len(steps)} time(s) per iteration ({len(uncond)} unconditionally); "
                                                  f"expected exactly one unconditional step")
         return
-    k = facts.day_delta(steps[0].stmt.value)
-    if isinstance(steps[0].stmt.op, ast.Sub) and k is not None:
-        k = -k
+    if steps[0].kind == 'aug':
+        k = facts.day_delta(steps[0].stmt.value)
+        if isinstance(steps[0].stmt.op, ast.Sub) and k is not None:
+            k = -k
+    else:
+        k = facts.day_delta(steps[0].value.right)
+        if isinstance(steps[0].value.op, ast.Sub) and k is not None:
+            k = -k
     if k != S['dir']:
         o.refute(fill, steps[0].stmt, steps[0].stmt, f"the fill loop steps by `{src(steps[0].stmt)}`; expected exactly {S['dir']:+d} day")
         return
@@ -396,7 +514,8 @@ def conservation(ctx, o, S):
     pre = [n for n in fill.body if n is not loop]
     zero = False
     for n in walk_no_nested(fill.node):
-        if isinstance(n, ast.If) and (match(f"{left_p} == 0", n.test) or match(f"{left_p} <= 0", n.test) or match(f"not {left_p}", n.test)):
+        if isinstance(n, ast.If) and any(match(f"{v} == 0", n.test) or match(f"{v} <= 0", n.test) or match(f"not {v}", n.test)
+                                         for v in {left_p, param_p}):
             if any(isinstance(x, ast.Return) for x in n.body) and cfg.dominates(cfg.node_of(n), cfg.node_of(loop)):
                 zero = True
     if zero:
@@ -404,3 +523,60 @@ def conservation(ctx, o, S):
     else:
         o.refute(fill, fill.node, 'zero work shortcut', f"no `if {left_p} == 0: return` before the loop: a completed task would divide by the "
                                                         f"capacity of an arbitrary day")
+
+
+# --------------------------------------------------------------------------------------------------------------------
+def ledger_fresh(ctx, o, S):
+    """the ledger a calc() books into is empty at the start: `_ResourceUsage.__init__` allocates the row list itself (or takes
+    it from a parameter that has no shared mutable default), and calc constructs the ledger it hands to the pass"""
+    prog = ctx.prog
+    init = prog.func('schedule._ResourceUsage.__init__')
+    cls = prog.cls('_ResourceUsage')
+    sched.shared_mutable_defaults(ctx, o, [f for f in cls.methods.values()], "bookings")
+    a = init.node.args
+    pos = a.posonlyargs + a.args
+    defaults = dict(zip([x.arg for x in pos][len(pos) - len(a.defaults):], a.defaults))
+    stores = [(st, tgt, val) for st, tgt, val in facts.attr_stores(init, 'rows')]
+    if not stores:
+        o.undecided(init, init.node, 'rows', "the ledger's row list is not initialised in __init__")
+    ex = Expander(prog, init, ctx.typer)
+    for st, tgt, val in stores:
+        v = ex.expand(val) if val is not None else None
+        for conds, case in sched.expr_cases(v) if v is not None else []:
+            if isinstance(case, ast.BoolOp) and isinstance(case.op, ast.Or):
+                alts = case.values
+            else:
+                alts = [case]
+            for alt in alts:
+                fresh = (isinstance(alt, (ast.List, ast.ListComp)) or
+                         (isinstance(alt, ast.Call) and isinstance(alt.func, ast.Name) and alt.func.id in ('list', 'sorted')))
+                if fresh:
+                    o.site(init, st, f"rows = {src(alt)[:40]} (allocated per ledger)")
+                elif isinstance(alt, ast.Name) and alt.id in init.params:
+                    d = defaults.get(alt.id)
+                    if d is None or (isinstance(d, ast.Constant) and d.value is None):
+                        o.site(init, st, f"rows taken from parameter `{alt.id}` (no shared default)")
+                    elif isinstance(d, (ast.List, ast.Dict, ast.Set)) or isinstance(d, ast.Call):
+                        pass        # reported by shared_mutable_defaults above
+                    else:
+                        o.undecided(init, st, st, f"row list comes from parameter `{alt.id}` with default `{src(d)}`")
+                else:
+                    o.refute(init, st, st, f"the ledger's row list is `{src(alt)[:60]}`: not a list allocated for this ledger, bookings of "
+                                           f"other ledgers / earlier calc() calls are visible in it")
+    calc = prog.func(S['calc'])
+    exc = Expander(prog, calc, ctx.typer, inline=False)
+    pname = prog.func(S['pass_']).name
+    usage_idx = 2       # (task, bound, ledger, memo)
+    for c in facts.calls_named(calc, pname):
+        if len(c.args) <= usage_idx:
+            o.undecided(calc, c, c, "pass call without a positional ledger argument")
+            continue
+        led = exc.expand(c.args[usage_idx], cfg_of(calc).node_containing(c))
+        if match("_ResourceUsage()", led):
+            o.site(calc, c, "ledger constructed by this calc call")
+        elif isinstance(led, ast.Call) and isinstance(led.func, ast.Name) and led.func.id == '_ResourceUsage':
+            o.undecided(calc, c, c.args[usage_idx], f"the ledger is constructed with arguments: `{src(led)[:60]}`")
+        elif isinstance(led, ast.Attribute) and isinstance(led.value, ast.Name) and led.value.id == calc.params[0]:
+            o.refute(calc, c, c.args[usage_idx], f"the ledger handed to the pass is scheduler state (`{src(led)}`): bookings of an earlier calc() stay booked")
+        else:
+            o.undecided(calc, c, c.args[usage_idx], f"the ledger handed to the pass is `{src(led)[:60]}`, not one constructed by this call")
